@@ -181,6 +181,7 @@ func checkC05(r *evid.Run) {
 	})
 	// the walk under every option sequence (Options.tla): options a walk has no use for change nothing
 	checkOptions(r, "rule", []int{0}, func(s *optState) bool { return s.Op == "walk" && !s.has("massive") })
+	sessionPhase(r) // Session.tla: the calls this property owns, after every other call of the alphabet
 	r.Set("exhaustive", true)
 	r.Set("rule", "every well-formed document up to the line bound x every stop position k (callback error / iterator break) x {WalkFromMarkdown, WalkFromRoot, WalkIterFromRoot} x branch tuples; non-trivial = at least 3 nodes")
 	traceDocs(r, "C05", traceSpecC05)
